@@ -32,6 +32,14 @@ def scn_assign(params):
         k = sim.k
         srv = sim.server(tun=params["tun"])
         if not srv.alive():
+            h0 = sim.health(srv)
+            if h0.startswith("exit:") and 8 <= int(params["tun"].split("/")[1]) <= 30:
+                # a server that refuses to start with a documented address/netmask creates no session at all
+                out["evaluations"] = 1
+                out["violations"].append(("C18:told:server-refuses-netmask-%s" % params["tun"].split("/")[1],
+                                          "iodined started with the tunnel address %s exits at once (%s) instead of serving min(16, subnet size - 3) sessions" % (params["tun"], h0),
+                                          {"seed": seed, "params": params, "stderr": k.stderr_text(srv, 600)}))
+                return out
             out["inconclusive"] = "server-died-at-start"
             return out
         sip, bits = params["tun"].split("/")
@@ -95,6 +103,19 @@ def scn_assign(params):
             mcs.append(mc)
             return True
 
+        def foreign_hellos(n):
+            # hosts speaking another protocol version say hello (an outdated client retries 5 times; scanners): answered VNAK,
+            # and the pool is what it was
+            for h_ in range(n):
+                fc = mclient.ModelClient("10.53.9.%d" % (1 + h_ % 200), (scen.SERVER_IP, 53), sim.domain, sim.password, random.Random(rng.getrandbits(32)),
+                                         qtype=rng.choice(list(proto.QTYPES.values())))
+                k.add_actor(fc.ip, fc)
+                pl = fc.version(version=rng.choice([0x00000501, 0x00000500, 0x00000503, 0, 0xFFFFFFFF, 0x02050000]))
+                out["stats"]["assign_foreign_hellos"] = out["stats"].get("assign_foreign_hellos", 0) + 1
+                if pl and pl[:4] == b"VACK":
+                    out["violations"].append(("C18:told:foreign-version-accepted", "a hello with another protocol version was answered %r on %s" % (pl[:9], params["tun"]), wit))
+        if params.get("foreign"):
+            foreign_hellos(params["foreign"])
         j = 0
         go = True
         while go and j < want + 2:
@@ -104,6 +125,8 @@ def scn_assign(params):
             for g in range(group):
                 mc = mk(j + g)
                 vs.append((j + g, mc, mc.version()))
+            if params.get("foreign") and rng.random() < 0.3:
+                foreign_hellos(rng.randint(1, 3))
             for (jj, mc, pl) in vs:
                 if not pl or pl[:4] != b"VACK":
                     if jj < want:
@@ -214,7 +237,7 @@ def run(ctx):
             host = lo + rng.randint(1, size - 2)
             nets.append("%d.%d.%d.%d/%d" % (base[0], base[1], base[2], host, bits))
         plist = [{"idx": i, "seed": ctx.seed * 100000 + i, "rseed": rng.getrandbits(32), "tun": t, "shared_ip": i % 3 == 1,
-                  "interleave": i % 2 == 1, "bad_login": i % 4 < 2} for i, t in enumerate(nets)]
+                  "interleave": i % 2 == 1, "bad_login": i % 4 < 2, "foreign": [0, 1, 5, 17][i % 4] if (i // 4) % 2 == 0 else 0} for i, t in enumerate(nets)]
         sysres = core.Result()
         simrun.run_scenarios(sysres, b, scn_assign, plist, jobs=ctx.jobs)
         simrun.finalize_sets(sysres)
